@@ -104,8 +104,14 @@ var curPost A
 
 func newEngine(pre A, comp compiler.Compiler) *yae.Expr {
 	ex := yae.NewExpr()
+	userFnIds = map[*val.Val]string{}
+	reg := func(id string) {
+		f := userFuns[id]()
+		userFnIds[f] = id
+		ex.RegisterFun(f)
+	}
 	for _, id := range pre {
-		ex.RegisterFun(userFuns[id.(string)]())
+		reg(id.(string))
 	}
 	if comp != nil {
 		ex.UseCompiler(comp)
@@ -115,7 +121,7 @@ func newEngine(pre A, comp compiler.Compiler) *yae.Expr {
 			panic("warm-up compile failed: " + err.Error())
 		}
 		for _, id := range curPost {
-			ex.RegisterFun(userFuns[id.(string)]())
+			reg(id.(string))
 		}
 	}
 	return ex
